@@ -217,6 +217,17 @@ func (eng *Engine) callEffects(c *ssa.CallCommon, out map[string]bool, in *ssa.F
 		for h := range eng.effects(callee.Fn.(*ssa.Function)) {
 			out[h] = true
 		}
+	case *ssa.Parameter:
+		if callee.Parent() != nil && callee.Parent().Pkg != nil {
+			key := callee.Parent().Pkg.Pkg.Path() + "::callback:" + funcKey(callee.Parent()) + "." + callee.Name()
+			if ct := eng.cs.Contracts[key]; ct != nil {
+				for h := range eng.callbackEffects(ct, callee) {
+					out[h] = true
+				}
+				return
+			}
+		}
+		out["*"] = true
 	default:
 		// function value: if it is a closure created in this function, use its effects
 		if mc, ok := c.Value.(*ssa.MakeClosure); ok {
@@ -608,4 +619,35 @@ func sortNameOfKey(t types.Type) string {
 		return "S." + structKey(t)
 	}
 	return "Int"
+}
+
+// callbackEffects: heap-level effects declared by a callback contract.
+func (eng *Engine) callbackEffects(ct *Contract, p *ssa.Parameter) map[string]bool {
+	out := map[string]bool{}
+	if !ct.HasMod {
+		out["*"] = true
+		return out
+	}
+	if ct.Pure {
+		return out
+	}
+	fn := p.Parent()
+	pkg := fn.Pkg.Pkg
+	var names []string
+	var ts []types.Type
+	for _, q := range fn.Params {
+		names = append(names, q.Name())
+		ts = append(ts, q.Type())
+	}
+	for _, it := range ct.Modifies {
+		switch {
+		case it.All:
+			out["*"] = true
+		case it.Heap != "":
+			out[it.Heap] = true
+		default:
+			eng.modItemHeaps(it, names, ts, pkg, out)
+		}
+	}
+	return out
 }
